@@ -106,10 +106,16 @@ fn yields() -> u32 {
     0
 }
 
-/// Seeded schedule point: yields to the scheduler 0..=6 times.
+/// Seeded schedule point: yields to the scheduler 0..=6 times; a draw of 5 or 6 additionally
+/// sleeps one millisecond (of virtual time under a paused clock), so that the task stays
+/// between two critical sections while timers of other tasks fire and new messages arrive.
 pub async fn sched_point() {
-    for _ in 0..yields() {
+    let n = yields();
+    for _ in 0..n {
         tokio::task::yield_now().await;
+    }
+    if n >= 5 {
+        tokio::time::sleep(std::time::Duration::from_millis(1)).await;
     }
 }
 
